@@ -317,6 +317,30 @@ theorem load_default_network_iff (c : Cfg) (hn : c.opts.skipNormalization = fals
   obtain ⟨m, hm, hf⟩ := load_ok c docs e h
   exact ⟨m, hm, finishLoad_default_network_iff c hn m e hf⟩
 
+/-- the same three statements for files given as YAML text (`loadY`: several documents per file, `!reset` / `!override`) -/
+theorem loadY_resource_names (c : Cfg) (hn : c.opts.skipNormalization = false) (files : List (List Reset.YNode)) (e : KVs)
+    (h : loadY c files = .ok e) (r : String) (hr : r = "volumes" ∨ r = "configs" ∨ r = "secrets") :
+    ∃ m, loadYamlModelY c files = .ok m ∧
+      lookup r e = (lookup r m).map (nameSectionV (some (.str c.projectName))) := by
+  obtain ⟨m, hm, hf⟩ := loadY_ok c files e h
+  exact ⟨m, hm, finishLoad_resource_names c hn m e hf r hr⟩
+
+theorem loadY_network_names (c : Cfg) (hn : c.opts.skipNormalization = false) (files : List (List Reset.YNode)) (e : KVs)
+    (h : loadY c files = .ok e) :
+    ∃ m, loadYamlModelY c files = .ok m ∧
+      (nnNetworks m ≠ [] →
+        lookup "networks" e = some (.map (mapAt (nameResource (some (.str c.projectName))) (nnNetworks m)))) := by
+  obtain ⟨m, hm, hf⟩ := loadY_ok c files e h
+  exact ⟨m, hm, finishLoad_network_names c hn m e hf⟩
+
+theorem loadY_default_network_iff (c : Cfg) (hn : c.opts.skipNormalization = false) (files : List (List Reset.YNode))
+    (e : KVs) (h : loadY c files = .ok e) :
+    ∃ m, loadYamlModelY c files = .ok m ∧
+      ((∃ nets, lookup "networks" e = some (.map nets) ∧ (lookup "default" nets).isSome = true) ↔
+        ((lookup "default" (declaredNetworks m)).isSome = true ∨ usesDefaultNetwork m = true)) := by
+  obtain ⟨m, hm, hf⟩ := loadY_ok c files e h
+  exact ⟨m, hm, finishLoad_default_network_iff c hn m e hf⟩
+
 /-- **what `load` returns is a fixed point of its own defaulting tail**: handing the loaded model (all defaults
 explicit) to `dict["name"] = …; Normalize` again returns it unchanged -/
 theorem load_result_is_fixed_point (c : Cfg) (hclean : ∀ s, c.clean (c.clean s) = c.clean s)
